@@ -11,7 +11,6 @@ import (
 	"verif/harness/core"
 
 	"verif/harness/gen"
-	"verif/harness/wg"
 )
 
 // C15Dev is the development aid behind cmd/c15probe.
@@ -63,7 +62,7 @@ func C15Dev(args []string) int {
 			if len(args) > 2 && !strings.Contains(cs.Desc, args[2]) {
 				return
 			}
-			for pol, bos := range c15PolsFor(cs, backends) {
+			for pol, bos := range c15PolsFor(cs, backends, true) {
 				for _, bo := range bos {
 					be := bo[0]
 					cc := c15Compile(cs, be, pol)
@@ -120,7 +119,7 @@ func C15Dev(args []string) int {
 				continue
 			}
 			be, pol := args[2], args[3]
-			fmt.Println(wg.Print(cs.Prog))
+			fmt.Println(c15Src(cs))
 			cc := c15Compile(cs, be, pol)
 			if cc.err != "" {
 				fmt.Println("COMPILE:", cc.err)
